@@ -37,7 +37,7 @@ def trusted_scan(text):
     """every place where something is assumed rather than proved"""
     out = []
     lines = text.split('\n')
-    pat = re.compile(r'external_body|assume_specification|\badmit\(\)|\bassume\(|external_type_specification|#\[verifier::external\b')
+    pat = re.compile(r'external_body|assume_specification|\badmit\(\)|\bassume\(|external_type_specification|#\[verifier::external\b|\baxiom fn\b')
     name = re.compile(r'\bfn\s+(\w+)|assume_specification[^\[]*\[\s*(.+?)\s*\]\s*\(|struct\s+(\w+)')
     for i, l in enumerate(lines):
         if l.strip().startswith('//'):
